@@ -798,6 +798,14 @@ func (t *Thread) rlock(c *Cell) {
 		t.ex.H.recordLockViolation(t.ex, "self-deadlock", "RLock of an RWMutex write-locked by the same goroutine")
 		t.ex.end("self-deadlock")
 	}
+	if m.readers[t] > 0 {
+		// Go forbids recursive read locking: with a writer queued in between, the second RLock blocks forever
+		if m.wwait > 0 {
+			t.ex.H.recordLockViolation(t.ex, "self-deadlock", "RLock of an RWMutex re-entered by the goroutine that already holds it while a writer is waiting")
+			t.ex.end("self-deadlock")
+		}
+		t.ex.H.noteHazard("recursive read lock of an RWMutex in " + shortFn(t.where))
+	}
 	if m.writer != nil || m.wwait > 0 {
 		t.block(func() bool { return m.writer == nil && m.wwait == 0 })
 	}
